@@ -490,11 +490,30 @@ def run_job(job, seed=0):
 
     if job.use_shim:
         shim.install()
+    import signal
+
+    def _alarm(signum, frame):
+        # wall-clock guard for library loops that never reach the solver (the deadline is otherwise checked at solver calls)
+        signal.setitimer(signal.ITIMER_REAL, 5)
+        raise core.PathLimit('job time budget exhausted (wall clock)')
+
+    old_handler = None
+    try:
+        old_handler = signal.signal(signal.SIGALRM, _alarm)
+        signal.setitimer(signal.ITIMER_REAL, budget + 20)
+    except (ValueError, OSError):
+        old_handler = None
     try:
         _, stats, npaths, exhausted = core.explore(body, timeout_ms=job.timeout_ms, max_paths=job.max_paths,
                                                    on_path=on_path, deadline=deadline,
                                                    max_decisions=job.max_decisions)
     finally:
+        try:
+            signal.setitimer(signal.ITIMER_REAL, 0)
+            if old_handler is not None:
+                signal.signal(signal.SIGALRM, old_handler)
+        except (ValueError, OSError):
+            pass
         shim.uninstall()
     summ.update(stats.as_dict())
     summ['exhausted'] = exhausted
